@@ -420,9 +420,9 @@ def gen_material(rng, tier, dispersive):
 
 
 def gen_scene(rng, i):
-    tier = ["iso", "axes", "c4", "iso"][i % 4]
+    tier = ["iso", "axes", "c4"][i % 3]
     shape = rng.choice([[3, 3, 3], [4, 4, 4], [3, 4, 5], [4, 3, 3]])
-    layout = ["bg", "block", "both", "block-zero"][(i // 4) % 4]
+    layout = ["block-zero", "both", "bg", "block"][i % 4]
     sc = {"cf": rng.choice([0.99, rng.uniform(0.3, 0.95)]), "shape": shape, "seed": rng.randint(0, 10 ** 6),
           "steps": rng.randint(5, 7), "tier": tier, "layout": layout}
     sc["bg"] = gen_material(rng, tier, layout in ("bg", "both", "block-zero"))
@@ -439,7 +439,7 @@ def nontrivial_key(sc):
 
 
 def run(ctx):
-    n = ctx.scale(6, 60)
+    n = ctx.scale(8, 60)
     for i in range(n):
         sc = gen_scene(ctx.rng, i)
         d = check_scene(ctx, sc)
@@ -468,7 +468,7 @@ def run(ctx):
         ctx.case(nontrivial=("nyquist", i), op="nyquist")
         nyquist_check(ctx, sc)
     # second clause: media around the coupled bound
-    targets = ctx.scale([0.93, 0.985, 1.03, 1.25], [0.5, 0.8, 0.93, 0.97, 0.985, 0.988, 1.005, 1.03, 1.1, 1.25, 1.6, 2.5] * 2)
+    targets = ctx.scale([0.93, 0.985, 1.03, 1.25, 0.995, 0.97], [0.5, 0.8, 0.93, 0.97, 0.985, 0.988, 1.005, 1.03, 1.1, 1.25, 1.6, 2.5] * 2)
     for i, tg in enumerate(targets):
         cf = ctx.rng.choice([0.99, 0.9, ctx.rng.uniform(0.3, 0.9)])
         eps = ctx.rng.choice([1.0, 1.0, ctx.rng.uniform(1.0, 3.0)])
